@@ -3,6 +3,7 @@ from .. import core, hist
 from ..gen import KEY_POOL, PREFIX, hx, rng_for
 
 ENGINES = ["memkv", "badger", "tikv"]
+EXTRA_PROP_MODULES = [("KB.Props.OrderC08", "KB.OrderC08")]
 
 
 def gen_case(seed, i, engine, n_rounds):
@@ -32,6 +33,8 @@ def gen_case(seed, i, engine, n_rounds):
             rr = r.randint(lo, sh.dealt)
             kind = r.random()
             a, b = hx(PREFIX + b"/"), hx(PREFIX + b"0")
+            if r.random() < 0.15:
+                lines.append("getfault")       # the read of the compaction record fails: the answer must be an error, not data
             if kind < 0.6:
                 lines.append("list %s %s %d %d" % (a, b, rr, r.choice([0, 0, 1, 3])))
             elif kind < 0.8:
@@ -45,8 +48,20 @@ def gen_case(seed, i, engine, n_rounds):
 def oracle(case):
     floor_rec = 0      # value of the stored record
     accepted = 0       # highest accepted compaction revision
+    faulted = False
     for i, (line, out) in enumerate(zip(case.lines, case.impl)):
         t, o = line.split(), out.split()
+        if t[0] == "getfault":
+            faulted = True
+            continue
+        if faulted and t[0] in ("list", "count", "stream"):
+            faulted = False
+            answered = (t[0] == "stream" and " end " in out and out.split(" end ")[1].split()[1] == "-") or \
+                       (t[0] != "stream" and o[1] != "err")
+            if answered and accepted > 0:
+                return ("line %d: %s was answered with data although the compaction record (a compaction at %d is accepted) could not be read" % (i + 1, line, accepted),
+                        "floor-unreadable-answered")
+            continue
         if t[0] == "compact" and len(o) == 2 and o[1].isdigit():
             accepted = max(accepted, int(o[1]))
         elif t[0] == "floor" and len(o) == 2 and o[1] != "-":
